@@ -71,3 +71,101 @@ func nonEscaping(a *ssa.Alloc) bool {
 	}
 	return ok(a)
 }
+
+// escapeSites: the instructions through which a pointer created by this allocation can become known to other code
+// (passed to a call, stored somewhere other than a local variable of the function, captured, sent, converted, ...).
+// ok is false when the uses cannot be enumerated. Before any of these instructions can have executed, no callee can
+// reach the object: its fields survive calls with unknown effects (a flow-sensitive refinement of nonEscaping).
+func escapeSites(a *ssa.Alloc) (sites []ssa.Instruction, ok bool) {
+	seen := map[ssa.Value]bool{}
+	ok = true
+	var walk func(v ssa.Value)
+	walk = func(v ssa.Value) {
+		if seen[v] || !ok {
+			return
+		}
+		seen[v] = true
+		refs := v.Referrers()
+		if refs == nil {
+			ok = false
+			return
+		}
+		for _, r := range *refs {
+			switch u := r.(type) {
+			case *ssa.Store:
+				if u.Val == v {
+					cell, isLocal := u.Addr.(*ssa.Alloc)
+					if !isLocal || cell.Heap {
+						sites = append(sites, u)
+						continue
+					}
+					crefs := cell.Referrers()
+					if crefs == nil {
+						ok = false
+						return
+					}
+					for _, cr := range *crefs {
+						switch cu := cr.(type) {
+						case *ssa.Store:
+							if cu.Addr != cell {
+								sites = append(sites, cu)
+							}
+						case *ssa.UnOp:
+							walk(cu)
+						case *ssa.DebugRef:
+						default:
+							sites = append(sites, cr)
+						}
+					}
+				}
+			case *ssa.UnOp, *ssa.Return, *ssa.DebugRef, *ssa.BinOp, *ssa.If:
+			case *ssa.FieldAddr:
+				walk(u)
+			case *ssa.IndexAddr:
+				walk(u)
+			case *ssa.Phi:
+				walk(u)
+			case *ssa.MakeInterface:
+				walk(u)
+			default:
+				sites = append(sites, r)
+			}
+		}
+	}
+	walk(a)
+	return sites, ok
+}
+
+// mayPrecede: can instruction e have executed before instruction p executes (same function)?
+func mayPrecede(e, p ssa.Instruction) bool {
+	eb, pb := e.Block(), p.Block()
+	if eb == nil || pb == nil {
+		return true
+	}
+	if eb == pb {
+		for _, ins := range eb.Instrs {
+			if ins == e {
+				return true // e comes first in the block
+			}
+			if ins == p {
+				break
+			}
+		}
+	}
+	// a path of at least one edge from e's block to p's block
+	seen := map[*ssa.BasicBlock]bool{}
+	stack := append([]*ssa.BasicBlock{}, eb.Succs...)
+	for len(stack) > 0 {
+		b := stack[len(stack)-1]
+		stack = stack[:len(stack)-1]
+		if seen[b] {
+			continue
+		}
+		seen[b] = true
+		if b == pb {
+			return true
+		}
+		stack = append(stack, b.Succs...)
+	}
+	return false
+}
